@@ -67,6 +67,33 @@ PROPS = {
         "optionally with an escape operation; must terminate (20 s bound) and equal the model; plus Parse(batch=false) over every pairing "
         "of revealed key and next commitments x both hash algorithms for update, recover and create",
         "Theorems: intake acceptance implies next commitment is not that of the revealed key and create/recover commitments differ (and the rule rejects nothing else); an applied operation never commits to the commitment it consumes nor to one consumed earlier in the chain; consumed commitments are pairwise distinct; resolution terminates. Cyclic histories and all key pairings through the real parser."),
+    "C07": {
+        "seed": 107, "gentie": 0, "corr": ["Json"], "coq_dirs": ["Json", "Corr/Json", "Props/C07"],
+        "gens": [{"name": "gen_json", "pkg": "./cmd/gen_json"}],
+        "rule": "values: random JSON values over an alphabet of tricky strings (non-ASCII, astral, control, quote / backslash, keys "
+                "whose UTF-16 and code-point order differ) and numbers, each in 8 re-serialisations (white space x member order x "
+                "escape style incl. upper / lower \\u and surrogate-pair escapes x number spelling); numbers: doubles by bit pattern "
+                "(every exponent field sampled, mantissas 0 / 1 / 2^52-1, negative, NaN / Inf, random doubles, integers x 10^k, "
+                "neighbours of the 16 layout switch points), each also through long 'E' / 'f' spellings; tokens: non-JSON ParseFloat "
+                "syntax, overflow / underflow boundaries, exact halfway strings, binary midpoints +-1ulp; malformed: duplicate names, "
+                "unterminated strings / structures, invalid escapes, lone surrogates (32 shapes), control characters, trailing "
+                "content, wrong top level, literals; fuzz: mutated documents and byte soup; distinct = distinct case terms",
+        "trusted_base": ["modelled, not verified: nothing below the byte level; strconv.ParseFloat / FormatFloat are re-modelled "
+                         "(exact rational arithmetic) and compared on every number case",
+                         "the number round trip is a theorem of the model because its printer re-reads its own text (a guard that never "
+                         "fires on any explored double); the real printer is tied to it by the bit-pattern correspondence only"],
+        "assumptions": ["inputs are well-formed UTF-8 (invalid UTF-8 is copied through by the code; outside the property's precondition)"],
+        "level_text": "Theorems: byte-identical output for every serialisation of one value; output is a fixed point, parses to the "
+                      "same value, is the unique serialisation of a normal form (member names strictly increasing by UTF-16 code "
+                      "units, minimal escaping, ES6 number layout, shortest round-trip digits, no white space); duplicate names, "
+                      "unterminated strings, raw control characters, invalid escapes, lone surrogates and trailing content are "
+                      "rejected; fuel never causes a rejection. Partial: unterminated arrays / objects are covered by examples and "
+                      "the differential class only. Number TOKENS follow strconv.ParseFloat ('+1', '01', '.5', hex floats, "
+                      "underscores are accepted): modelled as the code behaves; not among the property's rejection classes.",
+        "level_note": "Trusted: Coq kernel + vm_compute; generator and its oracles.",
+        "technique": "Coq proof (parser / printer model of the canonicalizer with exact number arithmetic) + vm_compute correspondence on "
+                     "values x re-serialisations, doubles by bit pattern, tokens, malformed classes and fuzz + oracles on the implementation",
+    },
     "C08": {
         "cmd": "c08", "seed": 108, "gentie": 0, "corr": ["Hash"], "coq_dirs": ["Hash", "Parser", "Json", "Corr/Hash", "Props/C08"],
         "rule": "hash layer: JWKs of five key types, suffix data and deltas of generated DIDs and random JSON values (nested, "
@@ -283,6 +310,35 @@ PROPS = {
         "level_note": DOC_NOTE,
         "technique": "Coq proof (structural projection theorems, calendar arithmetic) + vm_compute correspondence on generated documents, "
                      "models and option combinations",
+    },
+    "C20": {
+        "cmd": "c20", "seed": 120, "gentie": 0, "corr": ["Pipeline"], "coq_dirs": ["Pipeline", "Resolve", "Writer", "Batch", "Corr/Pipeline", "Props/C20"],
+        "rule": "full-pipeline runs over the real components (DocumentHandler.ProcessOperation -> batch.Writer driven by VerifStep "
+                "with the real cutter -> OperationHandler over a map CAS -> ledger stub -> real Observer -> TxnProcessor -> stores -> "
+                "processor / ResolveDocument): 5 directed scenarios x 3 configurations plus random workloads of several DIDs whose "
+                "whole lives are built by the client library (all key types), interleaved submissions, several operations of one DID "
+                "inside one batch window, operations on unknown / deactivated DIDs, invalid requests, forged signatures, windows, "
+                "flush points anywhere (empty queue, partial batches, forced), MaxOperationCount 2-4, one and two protocol versions "
+                "under both ledger policies for the transaction's protocol version, with and without unpublished-operation store "
+                "(none / create / create+update / all types); after every flush: store content per DID, ResolveDocument of every DID, "
+                "create response vs long form vs short form; distinct by event list",
+        "trusted_base": ["modelled, not verified: per-request facts (parser / signature / delta verdicts: C09-C11, C17, C18), file "
+                         "formats and CAS (C13, C14), the ledger (a stub assigning coordinates)"],
+        "assumptions": ["request ids are distinct", "non-create requests reveal a non-empty commitment (what the parser accepts)"],
+        "level_text": "Theorems over all event sequences (induction over the event list) of a composed pipeline model: conservation "
+                      "(every accepted request is in exactly one of queue / ledger / store / expired, refused requests leave no "
+                      "trace), per-DID stored operations strictly ordered by anchoring coordinates with at most one per transaction, "
+                      "resolution of every DID = the reference state machine run on its stored operations in anchoring order "
+                      "(refinement instantiated on the pipeline), equal to the left fold of apply for well-formed chains, the three "
+                      "views of a create agree up to publication metadata, batches carry one accepting version and are applied "
+                      "under the version the ledger stamps. Model tied to the real pipeline by differential runs and independent "
+                      "reference oracles on the implementation. Observations (not property violations): the writer re-queues "
+                      "deferred operations at the tail, so the anchoring order of one DID's operations may differ from the "
+                      "submission order (fifo_refuted); the batch limit is that of the version in force when cutting.",
+        "level_note": "Trusted: Coq kernel + vm_compute; harness (ledger stub, stores, projections); VerifStep hook.",
+        "technique": "Coq proof (composition of writer, batch, transaction-processor and resolution models; induction over all event "
+                     "sequences; refinement to the reference state machine) + vm_compute correspondence with full-pipeline runs of the "
+                     "real components + reference oracles on the implementation",
     },
     "C16": {
         "cmd": "c16", "seed": 116, "gentie": 0, "corr": ["Writer"],
